@@ -14,6 +14,7 @@ DOCUMENTED = {"done", "depleted", "superfluous", "raised:ValueConstraintViolated
 
 
 def build(ctx, rnd, L, M):
+    import gen as gen_mod
     cases = []
     n_types = [k for k in L["order"] if L["types"][k]["kind"] != "union"]
     msgs = core.corpus_messages()
@@ -86,6 +87,40 @@ def build(ctx, rnd, L, M):
         c = M.command(cc, nsess=rnd.choice([1, 2]), decrypt=rnd.random() < 0.6, encrypt=rnd.random() < 0.4)
         if c:
             cases.append(ds.Case("Command", None, False, c[1] if rnd.random() < 0.4 else mutate(c[1]), "cmd_gen_mutated"))
+    # layout drift (the failing-input search when the tables no longer are the pinned ones and a table obligation breaks): every
+    # integer whose validity for a primitive type changed against the pinned layout is written into every field of that type of a
+    # generated encoding of every structure (seed C06i: an algorithm added to the value tables without its `_list_size` entry)
+    import canon
+    import msggen as _mg
+    try:
+        G = gen_mod.load_layout("generated")
+    except Exception:  # noqa
+        G = L
+
+    def _vals(pr):
+        out = set()
+        for it in pr["valid"]:
+            if it["k"] in ("range", "named"):
+                out |= set(range(it["lo"], min(it["hi"], it["lo"] + 64))) | {it["hi"] - 1}
+            elif it["k"] in ("member", "int"):
+                out.add(it["v"])
+        return out
+    drift = {}
+    for pn, pr in G["prims"].items():
+        old = L["prims"].get(pn)
+        if old is None or old["valid"] != pr["valid"]:
+            d = (_vals(pr) ^ _vals(old)) if old else _vals(pr)
+            if d:
+                drift[pn] = sorted(d)[:40]
+    if drift:
+        for key in n_types:
+            r = M.G.gen(key)
+            if not r or not r[1]:
+                continue
+            lines = canon.impl_dec("S", key, None, False, r[1])
+            for off, w, path, pn in _mg.value_field_positions(lines, L):
+                for x in drift.get(pn, []):
+                    cases.append(ds.Case(key, None, False, _mg.put(r[1], off, w, x), "layout_drift"))
     for c in cases:
         if c.tname == "Response" and c.cc is None:
             c.cc = rnd.choice(ccs)
